@@ -356,6 +356,7 @@ fn finish(mut w: World, mut rec: Rec, mut r: Rng, stats: &mut Vec<(String, usize
     add("blocks", w.chain.len() + w.orphaned.len());
     add("orphaned_blocks", w.orphaned.len());
     add("notes_generated", w.notes.len());
+    add("sapling_outputs_remined_under_new_nullifier", w.renullified);
     add("with_linear_compare", if lin != "None" { 1 } else { 0 });
     for e in rec.errs {
         eprintln!("  err: {e}");
